@@ -17,8 +17,9 @@ MemNext(i) ==
   LET e == Ev(i) IN
   CASE e.k = "seq_start" -> [ids |-> AsSet(e.ids), regs |-> << >>]
     [] e.k = "register" ->
-         IF Parse(e.id_chars).ok /\ e.id \notin mem.ids
-         THEN [ids |-> mem.ids \cup {e.id}, regs |-> Upd(mem.regs, e.id, [entry |-> e.entry, kwargs |-> e.kwargs])]
+         IF Parse(e.id_chars).ok /\ Canon(e.id_chars) \notin mem.ids
+         THEN [ids |-> mem.ids \cup {Canon(e.id_chars)},
+               regs |-> Upd(mem.regs, Canon(e.id_chars), [entry |-> e.entry, kwargs |-> e.kwargs])]
          ELSE mem
     [] OTHER -> mem
 Init == LibInit([ids |-> {}, regs |-> << >>])
